@@ -865,7 +865,7 @@ let node_case (line : string) : string =
     let connect = (match words head with ["node"; c] -> c = "1" | _ -> failwith "bad node head") in
     let cfg = mk_cfg owned_arms [] [] in
     let st = ref (node_init node_name_bytes (n_of_int 7) connect) in
-    let pids = ref [] and refs = ref [] and sent_calls = ref [] and ncalls = ref 0 and printed = ref [] and burst = ref false and unwrap = ref [] in
+    let pids = ref [] and refs = ref [] and sent_calls = ref [] and ncalls = ref 0 and printed = ref [] and burst = ref false and unwrap = ref [] and wclosed = ref false in
     let do_op o = let (st', u) = step cfg !st o in st := st'; u in
     let pid_arg (t : toks) : pidr =
       (match t.l with
@@ -899,6 +899,8 @@ let node_case (line : string) : string =
           let n = int_of_string (next t) in
           let rec many n = if n = 0 then [] else let x = rd_term cmp_owned t in x :: many (n - 1) in
           let args = many n in
+          (* after a local close of the connection object the request cannot be written: the model's send-failure branch *)
+          let args = if !wclosed then [TAtom (List.init 70000 (fun _ -> n_of_int 97))] else args in
           let before = !st.n_pending in
           let u = do_op (ORpc (short, m, f, args)) in
           incr ncalls;
@@ -909,6 +911,7 @@ let node_case (line : string) : string =
           (* concurrent senders: the interleaving is the scheduler's; the model states (Conc/Interleave.v) what every
              interleaving satisfies, the bytes are judged by the oracle *)
           burst := true; if !st.n_connected then Printf.sprintf "sent %d" (k * n) else "sent 0"
+      | "lclose" -> wclosed := true; "-"
       | "expire" -> ignore (do_op OExpire); "-"
       | "frame" -> ignore (do_op (OFrame (bytes_of_hex (next t)))); "-"
       | "tick" -> ignore (do_op (OFrame [])); "-"
